@@ -1,6 +1,7 @@
 pub mod c04;
 pub mod c08;
 pub mod c13;
+pub mod c20;
 
 use crate::engine::Prop;
 use std::sync::Arc;
@@ -10,6 +11,7 @@ pub fn lookup(id: &str) -> Option<Arc<dyn Prop>> {
         "C04" => Arc::new(c04::C04),
         "C08" => Arc::new(c08::C08),
         "C13" => Arc::new(c13::C13),
+        "C20" => Arc::new(c20::C20),
         _ => return None,
     })
 }
